@@ -1730,11 +1730,12 @@ ecdsa_dh(ec_curve_p curve, int use_cofactor, ec_point_p pub_key,
 	BN_RET_ON_ERR(ec_point_assign(&Q, pub_key));
 	BN_RET_ON_ERR(bn_assign(shared_key, priv_key)); /* Use as temp. */
 	/* P = (Px, Py) = h * d * Q */
-	if (0 != use_cofactor) {
-		BN_RET_ON_ERR(bn_mod_mult_digit(shared_key, curve->h,
-		    &curve->n, &curve->n_mod_rd_data));
-	}
 	BN_RET_ON_ERR(ec_point_unknown_pt_mult(&Q, shared_key, curve));
+	if (0 != use_cofactor && 1 != curve->h && 0 == Q.infinity) {
+		/* h * (d * Q): (h * d) must not be reduced mod n, Q may be out of subgroup. */
+		BN_RET_ON_ERR(bn_assign_digit(shared_key, curve->h));
+		BN_RET_ON_ERR(ec_point_unknown_pt_mult(&Q, shared_key, curve));
+	}
 	if (0 != Q.infinity)
 		return (-1);
 	BN_RET_ON_ERR(bn_assign(shared_key, &Q.x));
